@@ -158,8 +158,10 @@ theorem natural {α β} (f : α → β) (v : Val α) (op : Op α) :
         cases r[p]? with
         | none => rfl
         | some row =>
-          simp only [Option.map_some, Option.bind_some, List.length_map]
-          split <;> simp [Val.map, List.map_set]
+          simp only [Option.map_some, Option.bind_some, List.length_map, fitValues_map]
+          cases fitValues row.length v with
+          | none => rfl
+          | some vs => simp [Val.map, List.map_set]
     | setRowSlice i a b v =>
       simp only [Val.map, Op.map, apply, List.length_map, List.getElem?_map]
       cases normIdx r.length i with
